@@ -9,21 +9,21 @@ import difflib
 from .lexer import lex, GHOST_OPEN, GHOST_CLOSE
 
 DIGITS = {
-    'u64': dict(D='u64', SD='i64', DD='u128', DB='64', BASE='0x1_0000_0000_0000_0000', HALF='0x8000_0000_0000_0000',
+    'u64': dict(DBM1='63', D='u64', SD='i64', DD='u128', DB='64', BASE='0x1_0000_0000_0000_0000', HALF='0x8000_0000_0000_0000',
                 DMAX='0xffff_ffff_ffff_ffff', BUint='BUint', BInt='BInt', HDB='32', HBASE='0x1_0000_0000', LOGDB='6'),
-    'u32': dict(D='u32', SD='i32', DD='u64', DB='32', BASE='0x1_0000_0000', HALF='0x8000_0000',
+    'u32': dict(DBM1='31', D='u32', SD='i32', DD='u64', DB='32', BASE='0x1_0000_0000', HALF='0x8000_0000',
                 DMAX='0xffff_ffff', BUint='BUintD32', BInt='BIntD32', HDB='16', HBASE='0x1_0000', LOGDB='5'),
-    'u16': dict(D='u16', SD='i16', DD='u32', DB='16', BASE='0x1_0000', HALF='0x8000',
+    'u16': dict(DBM1='15', D='u16', SD='i16', DD='u32', DB='16', BASE='0x1_0000', HALF='0x8000',
                 DMAX='0xffff', BUint='BUintD16', BInt='BIntD16', HDB='8', HBASE='0x100', LOGDB='4'),
-    'u8': dict(D='u8', SD='i8', DD='u16', DB='8', BASE='0x100', HALF='0x80',
+    'u8': dict(DBM1='7', D='u8', SD='i8', DD='u16', DB='8', BASE='0x100', HALF='0x80',
                DMAX='0xff', BUint='BUintD8', BInt='BIntD8', HDB='4', HBASE='0x10', LOGDB='3'),
 }
-_PH = re.compile(r'\$(BUint|BInt|BASE|HALF|DMAX|HBASE|LOGDB|HDB|DD|DB|SD|D)\b')
+_PH = re.compile(r'\$\{(\w+)\}|\$(BUint|BInt|BASE|HALF|DMAX|HBASE|LOGDB|HDB|DBM1|DD|DB|SD|D)(?![A-Za-z_])')
 
 
 def subst(text, digit):
     d = DIGITS[digit]
-    return _PH.sub(lambda m: d[m.group(1)], text)
+    return _PH.sub(lambda m: d[m.group(1) or m.group(2)], text)
 
 
 class Entry:
@@ -33,7 +33,7 @@ class Entry:
         return f'Entry({self.kind} {self.key} {self.opts} @{self.unit}:{self.line})'
 
 
-_HDR = re.compile(r'^//!\s*(raw|spec|proof|fn|const|trait)\b\s*([^\[\n]*?)\s*(\[[^\]]*\])?\s*$')
+_HDR = re.compile(r'^//!\s*(raw|spec|proof|fn|const|struct|trait)\b\s*([^\[\n]*?)\s*(\[[^\]]*\])?\s*$')
 
 
 def parse_overlay_file(path, unit):
@@ -66,8 +66,38 @@ def parse_overlay_file(path, unit):
     return entries
 
 
+def drop_trailing_commas(tokens):
+    """rustc's pretty printer drops trailing commas; normalise both sides the same way.
+    Works on token lists with or without ghost markers (ghost regions are left untouched)."""
+    out = []
+    n = len(tokens)
+    in_ghost = False
+    for i, t in enumerate(tokens):
+        if t == GHOST_OPEN:
+            in_ghost = True
+        elif t == GHOST_CLOSE:
+            in_ghost = False
+        elif t == ',' and not in_ghost:
+            j = i + 1
+            # next real token
+            g = False
+            while j < n:
+                if tokens[j] == GHOST_OPEN:
+                    g = True
+                elif tokens[j] == GHOST_CLOSE:
+                    g = False
+                elif not g:
+                    break
+                j += 1
+            if j < n and tokens[j] in (')', ']', '}'):
+                continue
+        out.append(t)
+    return out
+
+
 def split_ghost(tokens):
     """-> (real_tokens, ghosts) ; ghosts = [(k, [tokens])], k = number of real tokens before."""
+    tokens = drop_trailing_commas(tokens)
     real = []
     ghosts = []
     i = 0
